@@ -17,6 +17,8 @@ CONSTANTS
   RecordMode = "component"
   PoolSet = {FALSE, TRUE}
   AssembleMode = "index"
+  LateSet = {FALSE, TRUE}
+  LookupMode = "live"
   MaxFaults = 4
 INVARIANT RoundTrip
 INVARIANT ErrorsPersisted
